@@ -94,6 +94,18 @@ def Close.isReturned (c : Close) : Bool := match c.stage with | .returned => tru
 
 def Close.isStopping (c : Close) : Bool := match c.stage with | .stopping => true | _ => false
 
+/-- a task suspended in `wait_for_future_set_or_timeout` (`Zeroconf.async_wait` between two probes, `ServiceInfo.async_wait` of a
+lookup): a future in the instance's set and a `call_later` handle that resolves it at the deadline -/
+inductive Wait where
+  /-- future unresolved, handle armed -/
+  | pending
+  /-- a notification (`async_notify_all`) has resolved the future and emptied the set; the task has not been resumed yet, so the
+  handle is **still armed** -/
+  | notified
+  /-- the handle has fired and resolved the future; the task has not been resumed yet, so the future is **still in the set** -/
+  | timedOut
+  deriving DecidableEq, Repr
+
 structure Host where
   /-- `Zeroconf.done` -/
   done : Bool
@@ -122,6 +134,8 @@ structure Host where
   loopThread : Bool := false
   /-- `self.loop.is_running()` -/
   loopRunning : Bool := true
+  /-- tasks suspended in `wait_for_future_set_or_timeout` -/
+  waits : List Wait := []
   deriving DecidableEq, Repr
 
 /-- API calls that need a running instance -/
@@ -187,6 +201,15 @@ inductive Block where
   | closeThreadsStop (i : Nat)
   /-- the task awaiting async close `i` is cancelled at the suspension point it is parked at -/
   | closeAbort (i : Nat)
+  /-- a task (a probing registration, a lookup) starts to wait: future into the set, timeout handle armed -/
+  | waitStart
+  /-- `async_notify_all()`: every future in the set is resolved, the set emptied — from a record update, and as the **last step of
+  every close** (`_shutdown_threads()` → `notify_all()` → `call_soon_threadsafe`), i.e. one loop iteration *after* the close returned -/
+  | notifyAll
+  /-- the timeout handle of wait `i` fires -/
+  | waitFire (i : Nat)
+  /-- the task of wait `i` is resumed (its future is resolved): it cancels the handle and takes the future out of the set -/
+  | waitResume (i : Nat)
   deriving DecidableEq, Repr
 
 /-- `async_send`: nothing leaves once `done` -/
@@ -299,6 +322,14 @@ instance is done (another close got there first); `async_close` lets it escape u
 lists it.  (Before fix 25230c1 — finding D17 — it did not: `wakeRaises false …`.) -/
 def wakeRaises (suppressed running done : Bool) : Bool :=
   Gen.Shutdown.wait_for_start_raises_after running done && !suppressed
+
+/-- does resolving go through the done-guard `_set_future_none_if_not_done` (`if not fut.done(): fut.set_result(None)`)?
+`Future.set_result` on a finished future raises `InvalidStateError` — out of a timer / `call_soon` callback, i.e. into the loop -/
+def timerOnFinished : List Out :=
+  if Gen.Shutdown.waiter_timer_guarded && !Gen.Shutdown.waiter_guard_sets true then [] else [.loopError]
+
+def notifyOnFinished : List Out :=
+  if Gen.Shutdown.resolve_all_guarded && !Gen.Shutdown.waiter_guard_sets true then [] else [.loopError]
 
 /-- `none`: the block is not enabled in this state (it cannot occur) -/
 def step (h : Host) : Block → Option (Host × List Out)
@@ -445,6 +476,23 @@ def step (h : Host) : Block → Option (Host × List Out)
     match h.closes[i]? with
     | some ⟨false, .waitingStart⟩ | some ⟨false, .unregistering _⟩ | some ⟨false, .shutdown⟩ =>
       some (h.setStage i false .aborted, [.raised .cancelled])
+    | _ => none
+  | .waitStart => some ({ h with waits := h.waits ++ [.pending] }, [])
+  | .notifyAll =>
+    -- pending futures are resolved; a future its own handle has already resolved is still in the set: the guard must leave it alone
+    some ({ h with waits := h.waits.map (fun w => match w with | .pending => .notified | w => w) },
+          if h.waits.contains .timedOut then notifyOnFinished else [])
+  | .waitFire i =>
+    match h.waits[i]? with
+    | some .pending => some ({ h with waits := h.waits.set i .timedOut }, [])
+    -- the notification got there first and the task has not been resumed yet: the handle fires on a finished future
+    | some .notified => some ({ h with waits := h.waits.eraseIdx i }, timerOnFinished)
+    | _ => none
+  | .waitResume i =>
+    match h.waits[i]? with
+    -- (`finally: handle.cancel()`, translated: were the call missing, the handle of a notified wait would stay armed)
+    | some .notified => some ({ h with waits := if Gen.Shutdown.waiter_cancels_handle then h.waits.eraseIdx i else h.waits }, [])
+    | some .timedOut => some ({ h with waits := h.waits.eraseIdx i }, [])
     | _ => none
 
 def run (h : Host) : List Block → Option (Host × List Out)
